@@ -234,6 +234,69 @@ Definition check_safety (r : region) (s : step) : option string :=
 
 Definition safe (r : region) (s : step) : bool := negb (is_some (check_safety r s)).
 
+(* ---------- what the property asks of CheckSafety and IsFinish, stated on the region alone ----------
+   (the monitor of the step probes evaluates the IMPLEMENTATION's answers against these; proof/C08_StepSpec.v shows
+   that the transcribed check_safety / is_finish imply them) *)
+Definition pair_ids_nonzero (l : list (Z * Z)) : bool := forallb (fun x => negb (snd x =? 0)) l.
+Definition step_ids_nonzero (s : step) : bool :=
+  match s with
+  | AddPeer _ id | AddLearner _ id | AddLightPeer _ id | AddLightLearner _ id
+  | PromoteLearner _ id | DemoteFollower _ id => negb (id =? 0)
+  | ChangePeerV2Enter pl dv | ChangePeerV2Leave pl dv => pair_ids_nonzero pl && pair_ids_nonzero dv
+  | _ => true
+  end.
+
+(* the peer (store, id) exists and its role satisfies ok *)
+Definition entry_is (r : region) (ok : role -> bool) (x : Z * Z) : bool :=
+  match get_store_peer r (fst x) with Some p => (pid p =? snd x) && ok (prole p) | None => false end.
+Definition is_role (a : role) (b : role) : bool := role_eqb a b.
+Definition one_of (a b : role) (x : role) : bool := role_eqb a x || role_eqb b x.
+
+(* a step may be started only if ... *)
+Definition spec_safe (r : region) (s : step) : bool :=
+  match s with
+  | TransferLeader _ to =>                       (* leadership goes to a present peer that is not a learner *)
+      match get_store_peer r to with Some p => negb (is_learner p) | None => false end
+  | AddPeer st id | AddLightPeer st id =>        (* the store is free, or already holds this very peer *)
+      match get_store_peer r st with Some p => pid p =? id | None => true end
+  | AddLearner st id | AddLightLearner st id =>  (* ... as a learner *)
+      match get_store_peer r st with Some p => (pid p =? id) && is_learner p | None => true end
+  | PromoteLearner st id => entry_is r (fun _ => true) (st, id)
+  | DemoteFollower st id =>                      (* the peer exists and is not on the leader's store *)
+      entry_is r (fun _ => true) (st, id) && negb ((st =? leader r) && negb (leader r =? 0))
+  | RemovePeer st _ => negb (st =? leader r)     (* never the leader *)
+  | ChangePeerV2Enter pl dv =>
+      (* every entry exists; either nothing of it happened and the region is in no joint state, or all of it
+         happened and the region's joint peers are exactly these *)
+      forallb (entry_is r (one_of Learner Incoming)) pl && forallb (entry_is r (one_of Voter Demoting)) dv
+      && (match pl, dv with [], [] => true | _, _ => false end
+          || (forallb (entry_is r (is_role Learner)) pl && forallb (entry_is r (is_role Voter)) dv && (count_joint r =? 0))
+          || (forallb (entry_is r (is_role Incoming)) pl && forallb (entry_is r (is_role Demoting)) dv
+              && (count_joint r =? Z.of_nat (length pl + length dv))))
+  | ChangePeerV2Leave pl dv =>
+      (* ... and leaving never demotes the leader *)
+      forallb (entry_is r (one_of Voter Incoming)) pl && forallb (entry_is r (one_of Learner Demoting)) dv
+      && (match pl, dv with [], [] => true | _, _ => false end
+          || (forallb (entry_is r (is_role Voter)) pl && forallb (entry_is r (is_role Learner)) dv && (count_joint r =? 0))
+          || (forallb (entry_is r (is_role Incoming)) pl && forallb (entry_is r (is_role Demoting)) dv
+              && (count_joint r =? Z.of_nat (length pl + length dv))
+              && forallb (fun x => negb (fst x =? leader r)) dv))
+  | MergeRegion _ _ | SplitRegion _ => true
+  end.
+
+(* a step counts as finished only if its effect is there *)
+Definition spec_done (r : region) (s : step) : bool :=
+  match s with
+  | TransferLeader _ to => leader r =? to
+  | AddPeer st id | AddLightPeer st id | PromoteLearner st id => entry_is r (fun ro => negb (role_eqb ro Learner)) (st, id)
+  | AddLearner st id | AddLightLearner st id | DemoteFollower st id => entry_is r (is_role Learner) (st, id)
+  | RemovePeer st _ => negb (is_some (get_store_peer r st))
+  | ChangePeerV2Enter pl dv => forallb (entry_is r (is_role Incoming)) pl && forallb (entry_is r (is_role Demoting)) dv
+  | ChangePeerV2Leave pl dv =>
+      forallb (entry_is r (is_role Voter)) pl && forallb (entry_is r (is_role Learner)) dv && negb (is_in_joint r)
+  | MergeRegion _ _ | SplitRegion _ => true
+  end.
+
 (* ---------- commands (OperatorController.SendScheduleCommand) ---------- *)
 Inductive change_type := AddNode | AddLearnerNode | RemoveNode.
 Definition change_type_eqb (a b : change_type) : bool :=
